@@ -14,12 +14,12 @@ class Effects:
     def direct(s, mod, cls, fn):
         """-> set of ('self', field) | ('global', name) | ('param', name) | ('setattr', target)"""
         out = set()
-        params = {a.arg for a in fn.args.args + fn.args.kwonlyargs}
+        params = {a.arg for a in fn.args.posonlyargs + fn.args.args + fn.args.kwonlyargs}
         if fn.args.vararg:
             params.add(fn.args.vararg.arg)
         if fn.args.kwarg:
             params.add(fn.args.kwarg.arg)
-        selfname = fn.args.args[0].arg if (cls is not None and fn.args.args) else None
+        selfname = (fn.args.posonlyargs + fn.args.args)[0].arg if (cls is not None and (fn.args.posonlyargs + fn.args.args)) else None
         globs = set()
         for n in ast.walk(fn):
             if isinstance(n, ast.Global):
@@ -90,7 +90,7 @@ class Effects:
     def callees(s, mod, cls, fn):
         """resolved repo callees: list of (mod, cls|None, fn)"""
         out = []
-        selfname = fn.args.args[0].arg if (cls is not None and fn.args.args) else None
+        selfname = (fn.args.posonlyargs + fn.args.args)[0].arg if (cls is not None and (fn.args.posonlyargs + fn.args.args)) else None
         for n in ast.walk(fn):
             if not isinstance(n, ast.Call):
                 continue
